@@ -525,6 +525,13 @@ fn run_fault<K: Kit>(sc0: &Scenario, f: &Fault, rep: &mut Report) {
                 json!({"kind": "fault", "prop": "C08", "scenario": sc.json(), "fault": format!("{f:?}"), "callbacks": n})
             });
         }
+        // a build time that is zero, negative or not a number: construction has 40 scripted samples at its disposal
+        // and a budget of at most a few deadline checks - using them all up means the deadline never fires
+        Err(Caught::ScriptExhausted) if matches!(f, Fault::Param(2, v) if *v != f64::INFINITY) => {
+            rep.violate(format!("C08|{name}|call-does-not-return|{class}"), format!("{class}: construct_roadmap drew every one of 40 scripted samples and kept going: with this build time the deadline never fires"), || {
+                json!({"kind": "fault", "prop": "C08", "scenario": sc.json(), "fault": format!("{f:?}")})
+            });
+        }
         Err(_) => rep.engine_error(format!("script exhausted in fault case {f:?} of {}", sc.tag)),
         Ok((results, reached)) => {
             if reached {
@@ -709,7 +716,7 @@ pub fn explore(prop: &'static str, tier: &'static str) -> Report {
         for v in [0.0, -1.0, f64::INFINITY, f64::NAN] {
             faults.push(Fault::Param(1, v));
         }
-        for v in [-1e-9, -1.0, f64::NEG_INFINITY, 0.0] {
+        for v in [-1e-9, -1.0, f64::NEG_INFINITY, 0.0, f64::NAN] {
             faults.push(Fault::Param(2, v));
         }
         let fjobs: Vec<(Scenario, Fault)> = KITS.iter().flat_map(|kit| Pk::ALL.iter().map(move |pk| api_scenario(kit, *pk))).flat_map(|sc| faults.iter().map(move |f| (sc.clone(), f.clone())).collect::<Vec<_>>()).collect();
